@@ -1303,11 +1303,17 @@ var vtACSNames = map[byte]rune{
 func (t *tScreen) buildAcsMap() {
 	acsstr := t.ti.AltChars
 	t.acs = make(map[rune]string)
+	// the glyph strings are written as cell content, not through TPuts:
+	// take the padding out of smacs/rmacs here (vt220: "\x1b(0$<2>")
+	var enter, exit bytes.Buffer
+	nopad := &terminfo.Terminfo{}
+	nopad.TPuts(&enter, t.ti.EnterAcs)
+	nopad.TPuts(&exit, t.ti.ExitAcs)
 	for len(acsstr) >= 2 {
 		srcv := acsstr[0]
 		dstv := acsstr[1:2] // the byte itself, not its UTF-8 encoding
 		if r, ok := vtACSNames[srcv]; ok {
-			t.acs[r] = t.ti.EnterAcs + dstv + t.ti.ExitAcs
+			t.acs[r] = enter.String() + dstv + exit.String()
 		}
 		acsstr = acsstr[2:]
 	}
